@@ -65,8 +65,10 @@ def null_stripped(ctx, fi, paths, rule="C08.R4"):
                 steps.append("unit loop")
                 cur = lv[3]
             if cur == N.mk_add(lenD, tail, -1):
-                want = N.mk_cmp("==", ("sub", pad, ("slice", N.const(None), tail, N.const(None))), ("sub", D, ("slice", N.mk_neg(tail), N.const(None), N.const(None))))
-                ok = ok and want in cj
+                # the last `tail` bytes of the region, however the slice names them: D[-tail:], D[len(D)-tail:], with or without the explicit end
+                wants = [N.mk_cmp("==", ("sub", pad, ("slice", N.const(None), tail, N.const(None))), ("sub", D, ("slice", lo_, hi_, N.const(None))))
+                         for lo_ in (N.mk_neg(tail), N.mk_add(lenD, tail, -1)) for hi_ in (N.const(None), lenD)]
+                ok = ok and any(w_ in cj for w_ in wants)
                 steps.append("partial tail")
             elif cur != lenD:
                 ok = False
@@ -93,8 +95,16 @@ def null_stripped(ctx, fi, paths, rule="C08.R4"):
         cs = c[2] if c[0] == "bool" and c[1] == "and" else (c,)
         ok = any(x[0] == "cmp" and x[1] == "==" and pad in x[2:] and any(y[0] == "sub" and y[2][0] == "slice" for y in x[2:]) for x in cs)
         ctx.ob(rule, fi, ok, "the strip loop continues only while the unit before the end index equals the pad", key="loop condition")
-        bound = [x for x in cs if x[0] == "cmp" and x[1] in (">=", ">") and N.is_int(x[3])]
-        okb = bool(bound) and all((x[1] == ">=" and x[3] == N.const(0)) or (x[1] == ">" and x[3] == N.const(-1)) for x in bound)
+        # every ordering conjunct of the loop condition, brought to the form t >= 0: t must be (end index) - unit
+        def nonneg(x):
+            a_, b_ = x[2], x[3]
+            return {">=": lambda: N.mk_add(a_, b_, -1), ">": lambda: N.mk_add(N.mk_add(a_, b_, -1), N.const(-1)),
+                    "<=": lambda: N.mk_add(b_, a_, -1), "<": lambda: N.mk_add(N.mk_add(b_, a_, -1), N.const(-1))}[x[1]]()
+        bound = [x for x in cs if x[0] == "cmp" and x[1] in (">=", ">", "<=", "<")]
+        rds = [x for x in N.walk(c) if x[0] == "readall"]
+        lenD_ = ("call", ("free", "len"), (rds[0],), ()) if rds else N.NONE
+        ends = [lenD_, N.mk_add(lenD_, N.mk_mod(lenD_, unit), -1)]        # the end index the loop starts from: the region's length, less a stripped partial tail
+        okb = bool(bound) and all(any(nonneg(x) == N.mk_add(e_, unit, -1) for e_ in ends) for x in bound)
         ctx.ob(rule, fi, okb, "the strip loop may shorten the data down to nothing (end - unit >= 0): a region that is all padding becomes empty", key="loop bound")
         n += 1
         n += 1
